@@ -91,6 +91,37 @@ fixed("F10a", "C10", "72cd3ae",
       {"g1": {"start": "S", "how": "ctor", "vpool": "std", "tpool": "ab", "prods": [["S", [["T", "a"]]]]},
        "g2": {"start": None, "prods": [], "how": "ctor", "vpool": "std", "tpool": "ab"},
        "sub": {"first": 0, "second_self": False}})
+# ------------------------------------------------------------------ C11
+fixed("F11a", "C11", "130a194",
+      "CFG.intersection raised TypeError with a deterministic automaton of class NFA/EpsilonNFA",
+      {"kind": "cfg", "g": {"start": "S", "how": "ctor", "vpool": "std", "tpool": "ab", "prods": [["S", [["T", "a"]]]]},
+       "r": {"kind": "fa", "fa": fa("nfa", [[0, "a", 1]], [0], [1])}})
+fixed("F11b", "C11", "7d2a38c",
+      "CFG.intersection trusted converter indexes cached on Variable/State objects: with a terminal and a variable both spelled A the intersection with the regex A was empty (same root cause as F19c)",
+      {"kind": "cfg", "g": {"how": "text", "start": "S", "tpool": "shared", "vpool": "std",
+                            "prods": [["S", [["V", "A"]]], ["S", [["T", "A"]]], ["S", []], ["S", [["V", "S"]]], ["A", [["T", "a"]]]]},
+       "r": {"ast": ["sym", "A"], "kind": "regex", "text": "A"}}, hashseed="1269886241")
+# ------------------------------------------------------------------ C14
+def g(prods, **kw):
+    d = {"start": "S", "how": "ctor", "vpool": "std", "tpool": "ab", "prods": prods}
+    d.update(kw)
+    return d
+
+
+fixed("F14a", "C14", "73c4810",
+      "LL(1) table entered nullable productions with a non-empty body under FOLLOW only: S -> B, B -> a | epsilon refused the member 'a'",
+      {"g": g([["S", [["V", "B"]]], ["B", [["T", "a"]]], ["B", []]])})
+fixed("F14b", "C14", "85330f9",
+      "get_llone_parse_tree raised AttributeError when input remains after a complete parse (S -> b, word b zz)",
+      {"g": g([["S", [["T", "b"]]]])})
+# ------------------------------------------------------------------ C15
+fixed("F15a", "C15", "d629566",
+      "get_leftmost_derivation re-inserted a variable that derived epsilon when it is not the last child (S -> A B, A -> epsilon, B -> b: the derivation of b ended in A b)",
+      {"kind": "cfg", "g": g([["S", [["V", "A"], ["V", "B"]]], ["A", []], ["B", [["T", "b"]]]])})
+fixed("F15c", "C15", "2d7c7b0",
+      "FCFG.get_parse_tree shared mutable partial trees between Earley states: S -> b | S b gave trees with extra children / cycles for b b",
+      {"kind": "fcfg", "f": {"start": "S", "sig": {"S": []},
+                             "prods": [["S", {}, [["T", "b"]]], ["S", {}, [["V", "S", {}], ["T", "b"]]]]}})
 # ------------------------------------------------------------------ C06
 fixed("F06a", "C06", "2262869",
       "to_regex raised ValueError on automata with two start states",
